@@ -97,10 +97,25 @@ type tracer struct {
 	p        *Program
 	prims    map[string]string
 	inline   map[string]bool // callees to inline
+	noAuto   func(name string) bool // framer methods that are deliberately not followed
 	unsup    []string
 	maxPaths int
 	npaths   int
 	verField string // "proto": f.proto / header version selector suffix
+}
+
+// autoInline: a framer method with a body that is neither a primitive nor explicitly listed is a helper the
+// frame code was split into; its reads/writes belong to the caller's layout, so it is inlined (a refactoring
+// that extracts part of a builder/parser into a helper must not change the layout that is compared).
+func (tr *tracer) autoInline(name string) bool {
+	if !strings.HasPrefix(name, "(*framer).") || tr.noAuto != nil && tr.noAuto(name) {
+		return false
+	}
+	if _, isPrim := tr.prims[name]; isPrim {
+		return false
+	}
+	fi := tr.p.Func(name)
+	return fi != nil && fi.Decl.Body != nil
 }
 
 func (tr *tracer) unsupported(n ast.Node, what string) {
@@ -146,7 +161,42 @@ func (tr *tracer) evalBool(info *types.Info, e ast.Expr, st *pathState) []boolCo
 			return []boolCont{{st, st.store[x.Name] != 0}}
 		}
 		if a, ok := st.alias[x.Name]; ok {
+			switch a {
+			case "true":
+				return []boolCont{{st, true}}
+			case "false":
+				return []boolCont{{st, false}}
+			}
 			return tr.atom(a, st, true)
+		}
+	case *ast.CallExpr:
+		// a predicate method whose body is one boolean return (e.g. meta.morePages()): evaluate its expression
+		// on the receiver so that it is the same atom as the inline spelling of the test
+		if fn := calleeOf(info, x); fn != nil && len(x.Args) == 0 {
+			if callee := tr.p.FuncOf(fn); callee != nil && callee.Decl.Body != nil && len(callee.Decl.Body.List) == 1 && callee.Decl.Recv != nil && len(callee.Decl.Recv.List) == 1 && len(callee.Decl.Recv.List[0].Names) == 1 {
+				if rs, ok := callee.Decl.Body.List[0].(*ast.ReturnStmt); ok && len(rs.Results) == 1 {
+					if rcv := recvExpr(x); rcv != nil {
+						rname := callee.Decl.Recv.List[0].Names[0].Name
+						actual := st.resolve(normAtom(rcv))
+						old, had := st.alias[rname]
+						st.alias[rname] = actual
+						out := tr.evalBool(callee.Pkg.TypesInfo, rs.Results[0], st)
+						for _, o := range out {
+							if had {
+								o.st.alias[rname] = old
+							} else {
+								delete(o.st.alias, rname)
+							}
+						}
+						if had {
+							st.alias[rname] = old
+						} else {
+							delete(st.alias, rname)
+						}
+						return out
+					}
+				}
+			}
 		}
 	case *ast.UnaryExpr:
 		if x.Op == token.NOT {
@@ -190,6 +240,33 @@ func (tr *tracer) evalBool(info *types.Info, e ast.Expr, st *pathState) []boolCo
 					return []boolCont{{st, val}}
 				}
 				return tr.atom(bit, st, val)
+			}
+			// emptiness of a length: len(x) > 0, != 0, >= 1 (true) and == 0, < 1, <= 0 (false) are one atom
+			{
+				side, k, op, okL := ast.Expr(nil), int64(0), x.Op, false
+				if c, ok := constInt(info, x.Y); ok {
+					side, k, okL = x.X, c, true
+				} else if c, ok := constInt(info, x.X); ok {
+					side, k, okL = x.Y, c, true
+					op = map[token.Token]token.Token{token.LSS: token.GTR, token.LEQ: token.GEQ, token.GTR: token.LSS, token.GEQ: token.LEQ, token.EQL: token.EQL, token.NEQ: token.NEQ}[x.Op]
+				}
+				if okL {
+					name := st.resolve(normAtom(stripAllConv(info, side)))
+					if strings.HasPrefix(name, "len(") && strings.HasSuffix(name, ")") && strings.Count(name, "(") == 1 {
+						pol, ok := false, true
+						switch {
+						case op == token.GTR && k == 0, op == token.GEQ && k == 1, op == token.NEQ && k == 0:
+							pol = true
+						case op == token.EQL && k == 0, op == token.LSS && k == 1, op == token.LEQ && k == 0:
+							pol = false
+						default:
+							ok = false
+						}
+						if ok {
+							return tr.atom(name+" > 0", st, pol)
+						}
+					}
+				}
 			}
 			// comparisons of a known local with a constant
 			if id, ok := ast.Unparen(x.X).(*ast.Ident); ok && st.known[id.Name] {
@@ -311,7 +388,7 @@ func (tr *tracer) bitTest(info *types.Info, x *ast.BinaryExpr, st *pathState) (s
 	default:
 		return "", false, false
 	}
-	subjStr := exprStr(stripWidening(info, subj))
+	subjStr := st.resolve(exprStr(stripWidening(info, subj)))
 	if id, isId := ast.Unparen(subj).(*ast.Ident); isId && st.known[id.Name] {
 		set := st.store[id.Name]&mask == mask
 		return "", set == setWhenTrue, true
@@ -672,7 +749,7 @@ func (tr *tracer) execExpr(fi *FuncInfo, e ast.Expr, states []*pathState) []*pat
 			}
 			continue
 		}
-		if tr.inline[name] {
+		if tr.inline[name] || tr.autoInline(name) {
 			callee := tr.p.Func(name)
 			if callee == nil || callee.Decl.Body == nil {
 				tr.unsupported(c, "cannot inline "+name)
@@ -699,7 +776,10 @@ func (tr *tracer) execExpr(fi *FuncInfo, e ast.Expr, states []*pathState) []*pat
 							// resolve through the caller's aliases
 							tmp := &pathState{alias: savedAlias}
 							a = tmp.resolve(a)
-							if a != nm.Name {
+							if id, isId := ast.Unparen(c.Args[k]).(*ast.Ident); isId && savedKnown[id.Name] {
+								// a constant-propagated local of the caller keeps its value in the callee
+								sub.store[nm.Name], sub.known[nm.Name] = savedStore[id.Name], true
+							} else if a != nm.Name {
 								sub.alias[nm.Name] = a
 							}
 						}
